@@ -323,6 +323,9 @@ ERR_CLAUSES = [
     ('data-unknown-statement', '<div data-tal-contnt="a">k</div>'),
     ('data-bad-define', '<div data-tal-define="x">k</div>'),
     ('unknown-statement-renamed-prefix', '<div xmlns:t="http://xml.zope.org/namespaces/tal" t:contnt="a">k</div>'),
+    ('nonstrict-content', '<div tal:content="1 +">a</div>'),
+    ('nonstrict-interpolation-later-line', '<div>\n <b>x</b>\n   ${2 +}</div>'),
+    ('nonstrict-define-second-part', '<div tal:define="y 1; x 1 +">a</div>'),
     # expressions written over several lines
     ('multiline-content', '<div tal:content="1 +\n  2 +">a</div>'),
     ('multiline-interpolation', '<div>${1 +\n 2 +}</div>'),
@@ -330,7 +333,9 @@ ERR_CLAUSES = [
 ]
 
 
-ERR_OPTIONS = {'data-unknown-statement': {'enable_data_attributes': True},
+ERR_OPTIONS = {'nonstrict-content': {'strict': False}, 'nonstrict-interpolation-later-line': {'strict': False},
+               'nonstrict-define-second-part': {'strict': False},
+               'data-unknown-statement': {'enable_data_attributes': True},
                'data-bad-define': {'enable_data_attributes': True}}
 
 
@@ -346,7 +351,9 @@ def _compile_error(text, opts=None):
     # clause, at which offset, in which order) is what the solver ranges over, each compilation is concrete
     with NoTracing():
         try:
-            PageTemplate(text, **(opts or {}))
+            t = PageTemplate(text, **(opts or {}))
+            if opts and opts.get('strict') is False:
+                t.render()          # the error is raised when the expression is reached
         except TemplateError as exc:
             return exc
         except Exception as exc:
